@@ -42,6 +42,9 @@ def stepPure (toks : List String) : Option String :=
   | ["est", cur, tl, tu, a, b] => do
       let cur ← cur.toNat?; let tl ← tl.toInt?; let tu ← tu.toInt?; let a ← a.toNat?; let b ← b.toNat?
       pure (showR ((estimateMaxLiquidity cur tl tu a b).map toString))
+  | ["ltd", tick, price, lo, hi, delta] => do
+      let tick ← tick.toInt?; let price ← price.toNat?; let lo ← lo.toInt?; let hi ← hi.toInt?; let delta ← delta.toInt?
+      pure (showR ((calculateLiquidityTokenDeltas tick price lo hi delta).map fun (a, b) => s!"{a} {b}"))
   | ["mdr", n0, n1, d, up] => do
       let n0 ← n0.toNat?; let n1 ← n1.toNat?; let d ← d.toNat?; let up ← b01 up
       pure (showR ((checkedMulDivRoundUpIf n0 n1 d up).map toString))
